@@ -5,7 +5,8 @@
 (* with a choice of exclude-pattern lists.  Written as ndjson to IOEnv.OUT.   *)
 (***************************************************************************)
 EXTENDS DevList, TLC, Json, IOUtils
-CONSTANT MaxLen
+CONSTANTS MaxLen,
+          Shard, NShards    \* this process renders and writes the cases number Shard, Shard + NShards, ... (1 <= Shard <= NShards)
 RECURSIVE SeqsOfLen(_, _)
 SeqsOfLen(S, n) == IF n = 0 THEN {<<>>} ELSE {Append(s, x): s \in SeqsOfLen(S, n - 1), x \in S}
 Lists == UNION {SeqsOfLen(KindIds, n): n \in 0..MaxLen}
@@ -15,7 +16,10 @@ PatLists == {<<>>, <<"*Mouse*">>, <<"AT Translated Set 2 keyboard">>, <<"*">>, <
 Singles == [i \in KindIds |-> [entries |-> <<i>>, excludes |-> <<>>]]
 Rest == SetToSeq({[entries |-> l, excludes |-> p]: l \in Lists, p \in PatLists} \ {Singles[i]: i \in KindIds})
 Cases == Singles \o Rest
-ASSUME ndJsonSerialize(IOEnv.OUT, [i \in 1..Len(Cases) |-> [id |-> i, entries |-> Cases[i].entries, excludes |-> Cases[i].excludes, text |-> Text(Cases[i].entries)]])
+ASSUME LET cs == Cases
+           n == IF Shard > Len(cs) THEN 0 ELSE (Len(cs) - Shard) \div NShards + 1
+       IN ndJsonSerialize(IOEnv.OUT, [j \in 1..n |-> LET i == Shard + (j - 1) * NShards IN
+                                                      [id |-> i, entries |-> cs[i].entries, excludes |-> cs[i].excludes, text |-> Text(cs[i].entries)]])
 ASSUME PrintT(<<"GENERATED", Len(Cases), Len(Kinds)>>)
 VARIABLE x
 Init == x = 0
